@@ -151,7 +151,7 @@ RcodeErr(rc) == CASE rc = 2 -> "ESERVFAIL" [] rc = 4 -> "ENOTIMP" [] rc = 5 -> "
 RInit == /\ cfg = [nsrv |-> 0]
          /\ now = 0
          /\ srv = <<>> /\ fdi = <<>> /\ q = <<>> /\ owedF = <<>> /\ owedO = <<>>
-         /\ proc = [in |-> FALSE, nonfd |-> FALSE, nrecv |-> 0, inbox |-> <<>>]
+         /\ proc = [in |-> FALSE, nonfd |-> FALSE, nrecv |-> 0, inbox |-> <<>>, ss |-> 0]
          /\ oos = FALSE
 
 (* ---- the properties, as state predicates evaluated by the trace specification --- *)
